@@ -29,7 +29,17 @@ class VLock:
         while self.owner is not None:
             if not blocking:
                 return False
-            self._sched._block(t, self)
+            if timeout is not None and timeout >= 0:
+                # a bounded wait: the scheduler may run this task although the lock is still held, which means that the
+                # wait has timed out (how long the holder keeps the lock is up to the schedule)
+                t.timed = True
+                self._sched._block(t, self)
+                t.timed = False
+                if self.owner is not None:
+                    self._sched.events.append((t.name, "<timeout>", 0))
+                    return False
+            else:
+                self._sched._block(t, self)
         self.owner = t
         self._sched.events.append((t.name, "<acq>", 0))
         return True
@@ -133,7 +143,7 @@ class LineSched:
         history = []
         while True:
             runnable = [t for t in self.tasks if not t.done
-                        and (t.blocked_on is None or t.blocked_on.owner is None)]
+                        and (t.blocked_on is None or t.blocked_on.owner is None or getattr(t, "timed", False))]
             if not runnable:
                 if any(not t.done for t in self.tasks):
                     self.deadlock = True
